@@ -533,8 +533,25 @@ fn global_install_part(res: &mut PartResult, max_steps: usize) {
 }
 
 /// two threads in lock-step: a recorder installed on one thread is never visible to the other
+/// Is `T: Send`? Decided by the compiler (an inherent associated const, available only when the bound holds, shadows
+/// the trait const) and readable at run time, so that a guard that has become `Send` is a verdict and not a build error.
+struct SendProbe<T: ?Sized>(std::marker::PhantomData<T>);
+trait NotSendDefault {
+    const IS_SEND: bool = false;
+}
+impl<T: ?Sized> NotSendDefault for SendProbe<T> {}
+impl<T: ?Sized + Send> SendProbe<T> {
+    const IS_SEND: bool = true;
+}
+
 fn threads_part(res: &mut PartResult) {
     res.engine = "E3 all pairs of short scope programs on two threads in lock-step".into();
+    // a guard restores the slot of whichever thread drops it: only its being !Send keeps a recorder installed locally on
+    // one thread from becoming current on another one (safe code could otherwise move the guard and drop it elsewhere)
+    #[allow(clippy::assertions_on_constants)]
+    if SendProbe::<LocalRecorderGuard<'static>>::IS_SEND {
+        res.violation("local-recorder-guard-can-change-threads", "LocalRecorderGuard is Send: safe code can move a guard to another thread, where dropping it installs the guard's saved recorder (local to the first thread) as that thread's current recorder".into(), json!({}));
+    }
     vseq::quiet_panics();
     let mut progs: Vec<Vec<Step>> = Vec::new();
     enumerate(1, 3, 1, &mut |p| {
